@@ -64,6 +64,13 @@ def c09(rng, tier):
                 try:
                     yield cmp('init_jacobian/extract_jacobian', U.extract_jacobian(vc.run(ns, U.init_jacobian(x))), J)
                     yield cmp('init_jac_vec/extract_jac_vec', U.extract_jac_vec(vc.run(ns, U.init_jac_vec(x, v))), J.dot(v))
+                    # scalar-valued program: J v is a scalar; gradient through extract_jacobian; matrix-valued result (outer product of the vector program)
+                    yield cmp('init_jac_vec/extract_jac_vec[scalar output]', U.extract_jac_vec(sc.run(ns, U.init_jac_vec(x, v))), Js[0].dot(v))
+                    yield cmp('init_jacobian/extract_jacobian[scalar output]', U.extract_jacobian(sc.run(ns, U.init_jacobian(x))), Js[0])
+                    if len(F) >= 2:
+                        c_ = numpy.arange(1., 4.)
+                        ym = vc.run(ns, U.init_jac_vec(x, v)); Ym = a.outer(ym, c_) if hasattr(a, 'outer') else None
+                        if Ym is not None: yield cmp('init_jac_vec/extract_jac_vec[matrix output]', U.extract_jac_vec(Ym), numpy.outer(J.dot(v), c_))
                     yield cmp('init_hessian/extract_hessian', U.extract_hessian(p.N, sc.run(ns, U.init_hessian(x))), Hs[0])
                     yield cmp('init_hess_vec/extract_hess_vec', U.extract_hess_vec(p.N, sc.run(ns, U.init_hess_vec(x, v))), Hs[0].dot(v))
                     if p.N >= 2: yield cmp('init_tensor(2)/extract_tensor', U.extract_tensor(p.N, sc.run(ns, U.init_tensor(2, x))), Hs[0])
